@@ -8,5 +8,5 @@ trap 'git -C /repo checkout -- . ; echo "[reverted]"' EXIT
 cd /verif; export VERIF_TARGET=${VERIF_TARGET:-/verif/target_seed} VERIF_OUT=${VERIF_OUT:-/tmp/vout}
 for id in "$@"; do
   echo "=== $id with $(basename $(dirname $P))/$(basename $P)"
-  ./check "$id" --tier "${SEED_TIER:-quick}" 2>&1 | grep -E "^VIOLATION|^C[0-9]+ tier|signature|MACHINERY" | cut -c1-260 | head -${SEED_LINES:-12}
+  ./check "$id" --tier "${SEED_TIER:-quick}" 2>&1 | grep -E "^VIOLATION|^C[0-9]+ tier|signature|MACHINERY" | cut -c1-260 | awk -v n=${SEED_LINES:-12} "NR<=n"
 done
